@@ -198,6 +198,9 @@ impl<'tcx> Cx<'tcx> {
         match c.const_ {
             MirConst::Unevaluated(uv, _) => {
                 let _ = write!(o, ",\"def\":{}", esc(&self.path(uv.def)));
+                if !uv.args.is_empty() {
+                    let _ = write!(o, ",\"cargs\":{}", esc(&with_no_trimmed_paths!(format!("{:?}", uv.args))));
+                }
                 if uv.promoted.is_some() {
                     o.push_str(",\"promoted\":true");
                 }
